@@ -624,11 +624,55 @@ func registerLibIntrinsics() {
 	for name, f := range map[string]func(string) string{"strings.ToLower": strings.ToLower, "strings.ToUpper": strings.ToUpper, "strings.TrimSpace": strings.TrimSpace} {
 		f, name := f, name
 		I[name] = func(in *Interp, fr *frame, args []Value) (Value, bool) {
-			c, ok := strArg(args[0]).Concrete()
-			if !ok {
+			src := strArg(args[0])
+			c, ok := src.Concrete()
+			if ok {
+				return CStr(f(c)), true
+			}
+			if name == "strings.TrimSpace" {
 				in.unsupported("%s of a symbolic string", name)
 			}
-			return CStr(f(c)), true
+			// case mapping of a symbolic string: per byte for ASCII content of a (small) known length;
+			// longer strings are cut, non-ASCII content leaves the supported fragment
+			var n int
+			switch lv := src.LenValue(in.tt).(type) {
+			case Int:
+				n = int(lv)
+			case *Term:
+				// lengths 0..3 are explored, longer symbolic strings are cut (recorded as such)
+				conds := make([]*Term, 0, 5)
+				for i := 0; i <= 3; i++ {
+					conds = append(conds, in.tt.Eq(lv, in.tt.BVConst(uint64(i), lv.sort.W)))
+				}
+				conds = append(conds, in.tt.BVCmp("bvugt", lv, in.tt.BVConst(3, lv.sort.W)))
+				n = in.fork(conds, name+" length")
+				if n > 3 {
+					in.path.cuts = append(in.path.cuts, "case mapping of a symbolic string longer than 3 bytes")
+					in.end("cut", "case mapping of a symbolic string longer than 3 bytes")
+				}
+			}
+			tt := in.tt
+			u8 := types.Typ[types.Uint8]
+			out := Str{}
+			for i := 0; i < n; i++ {
+				b := in.strByte(src, i)
+				if cb, ok := b.(Int); ok {
+					out = concatStr(out, CStr(f(string([]byte{byte(cb)}))))
+					continue
+				}
+				bt := in.toTerm(b, u8)
+				if !in.branch(boolVal(tt.BVCmp("bvult", bt, tt.BVConst(0x80, 8))), name+": ASCII byte") {
+					in.unsupported("%s of non-ASCII symbolic content", name)
+				}
+				lo, hi, delta := byte('A'), byte('Z'), uint64(32)
+				if name == "strings.ToUpper" {
+					lo, hi, delta = 'a', 'z', 0x100-32
+				}
+				inRange := tt.And(tt.BVCmp("bvuge", bt, tt.BVConst(uint64(lo), 8)), tt.BVCmp("bvule", bt, tt.BVConst(uint64(hi), 8)))
+				mapped := tt.Ite(inRange, tt.BVOp("bvadd", bt, tt.BVConst(delta, 8)), bt)
+				out = concatStr(out, strFromValues([]Value{in.fromTerm(mapped, u8)}))
+			}
+			return out, true
 		}
 	}
 	I["strings.CutPrefix"] = func(in *Interp, fr *frame, args []Value) (Value, bool) {
@@ -997,7 +1041,9 @@ func registerLibIntrinsics() {
 		}
 		it, _ := args[0].(Iface)
 		sl, _ := it.V.(Slice)
-		if sl.arr == nil || sl.n < 2 {
+		if sl.arr == nil || sl.n <= 12 {
+			// up to 12 elements the library sorts by insertion (ties keep their order): findings
+			// stay reproducible against the real library
 			return r, true
 		}
 		el := (*sl.arr)[sl.off : sl.off+sl.n]
@@ -1282,6 +1328,10 @@ func registerLibIntrinsics() {
 		o.F["state"] = "pending"
 		return was == "pending", true
 	}
+	I["runtime/debug.Stack"] = func(in *Interp, fr *frame, args []Value) (Value, bool) {
+		return SymBytes{s: CStr("goroutine 1 [running]:\n(stack omitted)\n")}, true
+	}
+	I["runtime/debug.PrintStack"] = func(in *Interp, fr *frame, args []Value) (Value, bool) { return nil, true }
 	I["time.Sleep"] = func(in *Interp, fr *frame, args []Value) (Value, bool) {
 		in.preempt()
 		return nil, true
